@@ -357,6 +357,8 @@ class HeapInterp:
             return None
         try:
             table = self.repo.const(fi.module, tbl.id)
+        except (NameError, UnboundLocalError):
+            raise
         except Exception:
             return None
         if not (isinstance(table, dict) and table and all(isinstance(k, str) for k in table) and len(table) <= 12):
@@ -1053,6 +1055,8 @@ class HeapInterp:
                 if f and not isinstance(a.val, (dict, list)) and not isinstance(b.val, (dict, list)):
                     r = f(a.val, b.val)
                     return Obj("const", ({ZERO} if (isinstance(r, (int, float)) and r == 0) else set()) | prov(a) | prov(b), r)
+            except (NameError, UnboundLocalError):
+                raise
             except Exception:
                 pass
         if isinstance(e.op, ast.Add) and (a.kind == "str" or b.kind == "str" or (a.kind == "const" and isinstance(a.val, str))):
@@ -1225,6 +1229,8 @@ class HeapInterp:
             if b.val is not None and k.kind == "const":
                 try:
                     return with_t(self.lift(b.val[k.val], 1), kp)
+                except (NameError, UnboundLocalError):
+                    raise
                 except Exception:
                     pass
             if b.elem is None:
@@ -1519,6 +1525,8 @@ class HeapInterp:
             if all(x.kind == "const" for x in a):
                 try:
                     o.val = slice(*[x.val for x in a])
+                except (NameError, UnboundLocalError):
+                    raise
                 except Exception:
                     o.val = None
             return o
@@ -1599,6 +1607,8 @@ class HeapInterp:
                 and all(x.kind == "const" for x in a):
             try:
                 return Obj("const", recv.t, getattr(recv.val, name)(*[x.val for x in a]))
+            except (NameError, UnboundLocalError):
+                raise
             except Exception:
                 pass
         if k == "str" or (k == "scalar" and name in STR_METHODS):
@@ -1708,6 +1718,8 @@ class HeapInterp:
                 if recv.val is not None and a and a[0].kind == "const":
                     try:
                         return with_t(self.lift(recv.val[a[0].val], 1), prov(a[0])) if a[0].val in recv.val else d
+                    except (NameError, UnboundLocalError):
+                        raise
                     except Exception:
                         pass
                 el = recv.elem if recv.elem is not None else None
